@@ -32,6 +32,7 @@ def main():
             demo = meta["demo"]
             def run_demo():
                 for src, dst in demo["copy"].items():
+                    os.makedirs(os.path.dirname(os.path.join(wt, dst)) or wt, exist_ok=True)
                     shutil.copyfile(os.path.join(d, src), os.path.join(wt, dst))
                 rc, out = sh(demo["cmd"], cwd=wt)
                 for dst in demo["copy"].values():
